@@ -417,6 +417,22 @@ func faultDrive(args []string) error {
 		if maxBytes > 1000 { // thorough: also inputs of several KB (beyond bufio's buffer)
 			ins = append(ins, corpusFor(fd.name, int64(7050+100*fi), nIn, 40)...)
 		}
+		limitIn := nIn
+		// the other line-ending conventions: CRLF copies of the first well-formed inputs; for FASTA (where a lone CR ends a line) CR-only copies
+		{
+			var extra []corpusInput
+			for _, in := range ins {
+				if len(extra) >= 4 || !in.WellFormed || len(in.Data) < 8 || len(in.Data) > maxBytes {
+					continue
+				}
+				extra = append(extra, corpusInput{fd.name, toCRLF(in.Data), true})
+				if fd.name == "fasta" {
+					extra = append(extra, corpusInput{fd.name, bytes.ReplaceAll(in.Data, []byte("\n"), []byte("\r")), true})
+				}
+			}
+			ins = append(extra, ins...)
+			limitIn = nIn + len(extra)
+		}
 		// one input with a line of more than two bufio buffers (faults at a sparse set of offsets), in the thorough tier also one
 		// of more than 64 KiB
 		longs := []corpusInput{lineOfLength(fd.name, int64(7070+100*fi), 9000, false)}
@@ -427,7 +443,7 @@ func faultDrive(args []string) error {
 		used := 0
 		for ii, in := range ins {
 			long := ii >= len(ins)-len(longs)
-			if !long && (len(in.Data) == 0 || len(in.Data) > maxBytes || used >= nIn) {
+			if !long && (len(in.Data) == 0 || len(in.Data) > maxBytes || used >= limitIn) {
 				continue
 			}
 			used++
